@@ -871,6 +871,9 @@ func genTxn(rng *rand.Rand, ts TxnSchema, sh *shadow, nops int) TxnJ {
 	if g.ts.Spec.Tables[0].Col("wset") != nil && rng.Intn(5) == 0 {
 		k = 34
 	}
+	if len(g.emptyTables()) > 0 && rng.Intn(12) == 0 {
+		k = 33 // while a table is empty: operations on it that are wrong in themselves
+	}
 	if g.multiIndexed() && rng.Intn(4) == 0 {
 		k = 17 // tables with several schema indexes: a row can be superseded in one of them only
 	}
@@ -1123,9 +1126,22 @@ func (g *txnGen) genBigOrder() []OperationJ {
 func (g *txnGen) genUnknownColumn() []OperationJ {
 	rng := g.rng
 	t := g.ts.Spec.Tables[rng.Intn(len(g.ts.Spec.Tables))]
+	// a table that holds no row, when there is one: what is wrong with an operation does not depend on there
+	// being rows to apply it to
+	if empty := g.emptyTables(); len(empty) > 0 && rng.Intn(3) != 0 {
+		t = empty[rng.Intn(len(empty))]
+	}
 	first := g.genOp()
+	if first.Table == t.Name && first.Op == "insert" && rng.Intn(2) == 0 {
+		first = OperationJ{Op: "select", Table: t.Name} // leave the table as it is
+	}
 	var bad OperationJ
-	switch rng.Intn(5) {
+	switch rng.Intn(7) {
+	case 5:
+		// a condition value of another type than the column's
+		bad = OperationJ{Op: []string{"select", "delete"}[rng.Intn(2)], Table: t.Name, Where: []WCondJ{{Col: "name", Fn: "==", Val: VA(AI(5))}}}
+	case 6:
+		bad = OperationJ{Op: "update", Table: t.Name, Where: []WCondJ{{Col: "n", Fn: []string{"==", "<"}[rng.Intn(2)], Val: VA(AS("five"))}}, Row: Row{"n": VA(AI(1))}}
 	case 0:
 		bad = OperationJ{Op: "update", Table: t.Name, Where: g.genWhere(t), Row: Row{"n": VA(AI(1)), "no_such_column": VA(AI(1))}}
 	case 1:
@@ -1841,6 +1857,16 @@ func (g *txnGen) genWeakMinDrop() []OperationJ {
 	return nil
 }
 
+func (g *txnGen) emptyTables() []TableSpec {
+	var out []TableSpec
+	for _, t := range g.ts.Spec.Tables {
+		if len(g.sh.rows[t.Name]) == 0 {
+			out = append(out, t)
+		}
+	}
+	return out
+}
+
 func (g *txnGen) multiIndexed() bool {
 	for _, t := range g.ts.Spec.Tables {
 		if len(t.Indexes) >= 2 && len(g.sh.rows[t.Name]) > 0 {
@@ -2010,7 +2036,9 @@ func (g *txnGen) genOverflow() (OperationJ, bool) {
 		if t.Col("r") == nil {
 			return OperationJ{}, false
 		}
-		ms = []MutationJ{{Col: "r", Mutator: "*=", Val: VA(AR(math.Ldexp(1, 1023)))}}
+		// (twice: whatever the row holds, the result is out of range or zero -- a huge value that stayed would
+		// make later additions inexact in float64, which the exact reference does not follow)
+		ms = []MutationJ{{Col: "r", Mutator: "*=", Val: VA(AR(math.Ldexp(1, 1023)))}, {Col: "r", Mutator: "*=", Val: VA(AR(math.Ldexp(1, 1023)))}}
 		if rng.Intn(2) == 0 {
 			ms = []MutationJ{{Col: "r", Mutator: "/=", Val: VA(AR(math.Ldexp(1, -1000)))}, {Col: "r", Mutator: "/=", Val: VA(AR(math.Ldexp(1, -1000)))}}
 		}
